@@ -320,9 +320,7 @@ func dkgLogOf(enc []byte, cands []*big.Int) (*big.Int, bool) {
 func dkgSubsetSums(polys [][]*big.Int, x int64) []*big.Int {
 	var vals []*big.Int
 	for _, p := range polys {
-		if p == nil {
-			vals = append(vals, nil)
-		} else {
+		if p != nil { // unknown polynomials take part in no sum
 			vals = append(vals, dkgPeval(p, x))
 		}
 	}
@@ -394,6 +392,15 @@ type dkgCall struct {
 	Seed string `json:"seed,omitempty"`
 	Orig int    `json:"orig,omitempty"`
 	Msg  string `json:"msg,omitempty"`
+	Nil  bool   `json:"nil,omitempty"` // pass a nil slice (Msg / Seed must be empty) instead of an empty one
+}
+
+// the byte-slice argument of a call: nil when asked for, a fresh copy otherwise
+func (c dkgCall) bytes(h string) []byte {
+	if c.Nil && h == "" {
+		return nil
+	}
+	return unhx(h)
 }
 
 type dkgObs struct {
@@ -410,10 +417,12 @@ func dkgExec(d crypto.DKGState, p *dkgProc, c dkgCall) (o dkgObs) {
 	var Y crypto.PublicKey
 	var ys []crypto.PublicKey
 	isEnd := false
+	// the caller's slices are arguments, not scratch space: they are compared with a copy after the call
+	seed, msg := c.bytes(c.Seed), c.bytes(c.Msg)
 	panicked, _ := catch(func() {
 		switch c.Op {
 		case "start":
-			err = d.Start(unhx(c.Seed))
+			err = d.Start(seed)
 		case "timeout":
 			err = d.NextTimeout()
 		case "end":
@@ -422,9 +431,9 @@ func dkgExec(d crypto.DKGState, p *dkgProc, c dkgCall) (o dkgObs) {
 		case "running":
 			o.Class = fmt.Sprint(d.Running())
 		case "bcast":
-			err = d.HandleBroadcastMsg(c.Orig, unhx(c.Msg))
+			err = d.HandleBroadcastMsg(c.Orig, msg)
 		case "priv":
-			err = d.HandlePrivateMsg(c.Orig, unhx(c.Msg))
+			err = d.HandlePrivateMsg(c.Orig, msg)
 		case "force":
 			err = d.ForceDisqualify(c.Orig)
 		}
@@ -432,6 +441,10 @@ func dkgExec(d crypto.DKGState, p *dkgProc, c dkgCall) (o dkgObs) {
 	o.Events = p.take()
 	if panicked {
 		o.Class = "panic"
+		return
+	}
+	if hx(seed) != c.Seed || hx(msg) != c.Msg {
+		o.Class = "argument-modified" // no documented class: RUndef for the model and the oracles
 		return
 	}
 	if o.Class == "" {
@@ -443,6 +456,27 @@ func dkgExec(d crypto.DKGState, p *dkgProc, c dkgCall) (o dkgObs) {
 	}
 	o.Running = d.Running()
 	return
+}
+
+// End's results are values: the keys an End call returned are encoded again at the end of the run (after
+// every later call on the instance) and compared with what they encoded when they were returned.
+func dkgKeysStable(obs []dkgObs) error {
+	for i, o := range obs {
+		if o.Class != "keys" || o.Keys == nil {
+			continue
+		}
+		x, Y, ys := o.keys[0].(crypto.PrivateKey), o.keys[1].(crypto.PublicKey), o.keys[2].([]crypto.PublicKey)
+		yhex, _ := o.Keys["y"].([]string)
+		if hx(x.Encode()) != o.Keys["x"] || hx(Y.Encode()) != o.Keys["Y"] || len(yhex) != len(ys) {
+			return implViolation("the keys returned by End (call %d) encode differently after the later calls on the instance", i)
+		}
+		for j, y := range ys {
+			if hx(y.Encode()) != yhex[j] {
+				return implViolation("public key share %d returned by End (call %d) encodes differently after the later calls on the instance", j, i)
+			}
+		}
+	}
+	return nil
 }
 
 func dkgRefused(o dkgObs) bool { return o.Class == "state" || o.Class == "invalid-input" }
